@@ -309,4 +309,400 @@ theorem legacy_eq_of_ascending {β : Type} (fields : List (String × Nat)) (row 
   unfold readFields readFieldsLegacy
   simp only [hs]
 
+/-! ## 2. `cooler dump` -/
+
+section dump
+variable {α : Type}
+
+/-- well-formed stored collection (C02's `ValidCooler`, the part the text interface relies on) -/
+structure ValidStore (s : Store α) : Prop where
+  sorted : StrictSorted s.px
+  inRange : InRange s.nbins s.px
+  triu : s.symm = true → Triu s.px
+  offsOK : OffsOK s.px s.offs s.nbins
+
+theorem taskChunks_flatten (ps : Pixels) (offs : List Nat) (spansOf : Box → List (Nat × Nat)) (t : Task) :
+    (taskChunks ps offs spansOf t).flatten = runTask ps offs spansOf t := by
+  unfold taskChunks runTask
+  cases t.1
+  · simp [List.flatMap_def]
+  · simp only [if_true]
+    rw [List.flatMap_def, List.map_flatten, List.map_map]
+    rfl
+
+/-- the chunk stream concatenates to the library query's result -/
+theorem engineChunks_flatten (s : Store α) (spansOf : Box → List (Nat × Nat)) (o : DumpOpts) :
+    (engineChunks s spansOf o).map List.flatten = engineOut s spansOf o := by
+  unfold engineChunks engineOut
+  simp only []
+  split
+  · unfold queryFill
+    rw [Option.map_map]
+    congr 1
+    funext ts
+    simp only [Function.comp]
+    rw [List.flatMap_def, List.flatten_flatten, List.map_map, List.flatMap_def]
+    congr 1
+    apply List.map_congr_left
+    intro t _
+    exact taskChunks_flatten _ _ _ t
+  · simp [directChunks, queryDirect, List.flatMap_def]
+
+/-- rows = the annotator mapped over the library query's result (chunking is irrelevant) -/
+theorem dumpRows_eq (ops : Bal.Ops Int α) (s : Store α) (spansOf : Box → List (Nat × Nat)) (o : DumpOpts) :
+    dumpRows ops s spansOf o = (engineOut s spansOf o).bind (mapO (annotateRow ops s o)) := by
+  unfold dumpRows
+  rw [← engineChunks_flatten]
+  cases engineChunks s spansOf o with
+  | none => rfl
+  | some chunks => simp [mapO_flatten]
+
+/-- the box of an in-domain dump: ordered extents inside the bin table -/
+def BoxOK (n : Nat) (b : Box) : Prop := b.i0 ≤ b.i1 ∧ b.j0 ≤ b.j1 ∧ b.i1 ≤ n ∧ b.j1 ≤ n
+
+/-- **dump_eq_query**: the dumped rows are the records of the corresponding library query, in engine
+order, each mapped through the selected annotations.  The query result is — direct engine — exactly
+the stored records inside the box, in storage order (in square mode: the sub-block of the matrix),
+and — fill-lower engine on a symmetric-upper store — a permutation of the sub-block of the symmetric
+completion: every entry of the box once, nothing else.  For every valid choice of row spans
+(`--chunksize`). -/
+theorem dump_eq_query (ops : Bal.Ops Int α) (s : Store α) (hv : ValidStore s)
+    (spansOf : Box → List (Nat × Nat)) (hsp : ∀ c, validSpans s.offs c (spansOf c) = true)
+    (o : DumpOpts) (hb : BoxOK s.nbins (bbox s.nbins o)) :
+    ∃ out, engineOut s spansOf o = some out ∧
+      dumpRows ops s spansOf o = mapO (annotateRow ops s o) out ∧
+      (if useFill s o = true then out.Perm (specWindow true s.px (bbox s.nbins o))
+       else out = s.px.filter (inBox (bbox s.nbins o)) ∧ out = specWindow false s.px (bbox s.nbins o)) := by
+  obtain ⟨h0, h1, hi, hj⟩ := hb
+  by_cases hf : useFill s o = true
+  · have hsymm : s.symm = true := by
+      unfold useFill at hf; simp only [Bool.and_eq_true] at hf; exact hf.2
+    have hvs : C03.ValidSymm s.px s.offs s.nbins := ⟨hv.sorted, hv.triu hsymm, hv.offsOK⟩
+    have hsome := C03.fillLower_total s.px s.offs spansOf (bbox s.nbins o) h0 h1
+    obtain ⟨out, hout⟩ := Option.isSome_iff_exists.mp hsome
+    have heo : engineOut s spansOf o = some out := by
+      unfold engineOut; simp only [hf, if_true]; exact hout
+    refine ⟨out, heo, ?_, ?_⟩
+    · rw [dumpRows_eq, heo]; rfl
+    · simp only [hf, if_true]
+      exact C03.fillLower_correct s.px s.offs s.nbins hvs spansOf hsp _ h0 h1 hi hj out hout
+  · have hd := C03.direct_correct s.px (C03.StrictSorted.rowSorted hv.sorted) s.offs s.nbins hv.offsOK
+      (bbox s.nbins o) hi (spansOf (bbox s.nbins o)) (hsp _)
+    have heo : engineOut s spansOf o = some (s.px.filter (inBox (bbox s.nbins o))) := by
+      unfold engineOut; simp only [hf, if_false, Bool.false_eq_true]; rw [hd]
+    refine ⟨_, heo, ?_, ?_⟩
+    · rw [dumpRows_eq, heo]; rfl
+    · simp [hf, specWindow]
+
+/-- **whole-matrix dump without fill = the stored table**, row for row -/
+theorem dump_whole_stored (ops : Bal.Ops Int α) (s : Store α) (hv : ValidStore s)
+    (spansOf : Box → List (Nat × Nat)) (hsp : ∀ c, validSpans s.offs c (spansOf c) = true)
+    (o : DumpOpts) (hr : o.range = none) (hf : useFill s o = false) :
+    dumpRows ops s spansOf o = mapO (annotateRow ops s o) s.px := by
+  have hbox : bbox s.nbins o = ⟨0, s.nbins, 0, s.nbins⟩ := by unfold bbox; rw [hr]
+  obtain ⟨out, _, h2, h3⟩ := dump_eq_query ops s hv spansOf hsp o
+    (by rw [hbox]; exact ⟨Nat.zero_le _, Nat.zero_le _, Nat.le_refl _, Nat.le_refl _⟩)
+  simp only [hf, Bool.false_eq_true, if_false] at h3
+  rw [h2, h3.1, hbox]
+  congr 1
+  rw [List.filter_eq_self]
+  intro p hp
+  have := hv.inRange p hp
+  simp [inBox, this.1, this.2]
+
+/-! ### the engine does not look at the annotation options, the annotator not at the engine's -/
+
+theorem engineOut_congr (s : Store α) (spansOf : Box → List (Nat × Nat)) (o o' : DumpOpts)
+    (h1 : o.fillLower = o'.fillLower) (h2 : o.range = o'.range) (h3 : o.range2 = o'.range2) :
+    engineOut s spansOf o = engineOut s spansOf o' := by
+  unfold engineOut useFill bbox
+  rw [h1, h2, h3]
+
+theorem annotateRow_congr (ops : Bal.Ops Int α) (s : Store α) (o o' : DumpOpts) (p : Px)
+    (h1 : o.balanced = o'.balanced) (h2 : o.join = o'.join) (h3 : o.annotate = o'.annotate)
+    (h4 : o.oneBasedIds = o'.oneBasedIds) (h5 : o.oneBasedStarts = o'.oneBasedStarts) :
+    annotateRow ops s o p = annotateRow ops s o' p := by
+  unfold annotateRow extraCols balStage joinStage finish
+  rw [h1, h2, h3, h4, h5]
+
+/-- lifting a row-wise effect to the whole dump -/
+theorem dumpRows_map_effect (ops : Bal.Ops Int α) (s : Store α) (spansOf : Box → List (Nat × Nat))
+    (o o' : DumpOpts) (g : Row α → Row α) (he : engineOut s spansOf o = engineOut s spansOf o')
+    (hr : ∀ p, annotateRow ops s o p = (annotateRow ops s o' p).map g) :
+    dumpRows ops s spansOf o = (dumpRows ops s spansOf o').map (List.map g) := by
+  rw [dumpRows_eq, dumpRows_eq, he]
+  have : annotateRow ops s o = fun p => (annotateRow ops s o' p).map g := funext hr
+  rw [this]
+  cases engineOut s spansOf o' with
+  | none => rfl
+  | some out => simp [mapO_map]
+
+/-! ### one theorem per option: rows with the flag = f (rows without the flag) -/
+
+theorem bump_comm (a b : List String) (r : Row α) : bump a (bump b r) = bump b (bump a r) := by
+  unfold bump
+  rw [List.map_map, List.map_map]
+  apply List.map_congr_left
+  intro c _
+  simp only [Function.comp]
+  by_cases h1 : c.1 ∈ a <;> by_cases h2 : c.1 ∈ b <;> simp [h1, h2]
+
+theorem rowNames_bump (cols : List String) (r : Row α) : rowNames (bump cols r) = rowNames r := by
+  unfold rowNames bump
+  rw [List.map_map]
+  apply List.map_congr_left
+  intro c _
+  simp only [Function.comp]
+  split <;> rfl
+
+theorem rowNames_bumpIf (b : Bool) (cols : List String) (r : Row α) : rowNames (bumpIf b cols r) = rowNames r := by
+  unfold bumpIf; split
+  · exact rowNames_bump _ _
+  · rfl
+
+/-- an option that only changes the final step acts on the finished row -/
+theorem annotateRow_finish_effect (ops : Bal.Ops Int α) (s : Store α) (o o' : DumpOpts) (p : Px)
+    (g : Row α → Row α) (h1 : o.balanced = o'.balanced) (h2 : o.join = o'.join)
+    (h3 : o.annotate = o'.annotate) (hfin : ∀ r e, finish o r e = g (finish o' r e)) :
+    annotateRow ops s o p = (annotateRow ops s o' p).map g := by
+  unfold annotateRow extraCols balStage joinStage
+  rw [h1, h2, h3]
+  simp only [hfin, Option.map_bind, Option.map_map, Function.comp_def]
+
+/-- `--one-based-starts`, one row: +1 on `start1`/`start2` where present, nothing else -/
+theorem annotateRow_starts (ops : Bal.Ops Int α) (s : Store α) (o : DumpOpts) (p : Px) :
+    annotateRow ops s { o with oneBasedStarts := true } p =
+      (annotateRow ops s { o with oneBasedStarts := false } p).map (bump startCols) :=
+  annotateRow_finish_effect ops s _ _ p _ rfl rfl rfl (fun r e => by simp [finish, bumpIf])
+
+/-- **`--one-based-starts`**: the dump with the flag is the dump without it with 1 added to both
+start columns where they are present (under `--join`, or `--annotate start`), and nothing else -/
+theorem one_based_starts_effect (ops : Bal.Ops Int α) (s : Store α) (spansOf : Box → List (Nat × Nat))
+    (o : DumpOpts) :
+    dumpRows ops s spansOf { o with oneBasedStarts := true } =
+      (dumpRows ops s spansOf { o with oneBasedStarts := false }).map (List.map (bump startCols)) :=
+  dumpRows_map_effect ops s spansOf _ _ _ (engineOut_congr s spansOf _ _ rfl rfl rfl)
+    (annotateRow_starts ops s o)
+
+/-- `--one-based-ids`, one row -/
+theorem annotateRow_ids (ops : Bal.Ops Int α) (s : Store α) (o : DumpOpts) (p : Px) :
+    annotateRow ops s { o with oneBasedIds := true } p =
+      (annotateRow ops s { o with oneBasedIds := false } p).map (bump idCols) :=
+  annotateRow_finish_effect ops s _ _ p _ rfl rfl rfl (fun r e => by
+    simp only [finish, bumpIf, if_true, Bool.false_eq_true, if_false]
+    split
+    · rw [bump_comm]
+    · rfl)
+
+/-- **`--one-based-ids`**: the dump with the flag is the dump without it with 1 added to both id
+columns where they are present (i.e. not under `--join`), and nothing else — also when no other
+annotation option is given (repair D11) -/
+theorem one_based_ids_effect (ops : Bal.Ops Int α) (s : Store α) (spansOf : Box → List (Nat × Nat))
+    (o : DumpOpts) :
+    dumpRows ops s spansOf { o with oneBasedIds := true } =
+      (dumpRows ops s spansOf { o with oneBasedIds := false }).map (List.map (bump idCols)) :=
+  dumpRows_map_effect ops s spansOf _ _ _ (engineOut_congr s spansOf _ _ rfl rfl rfl)
+    (annotateRow_ids ops s o)
+
+/-- on the plain three-column dump the flag really adds one to both ids (D11 regression: before the
+repair the annotator was not even built for this option set) -/
+theorem one_based_ids_plain (ops : Bal.Ops Int α) (s : Store α) (p : Px) :
+    annotateRow ops s { oneBasedIds := true } p =
+      some [("bin1_id", .int (p.i + 1)), ("bin2_id", .int (p.j + 1)), ("count", .int p.v)] := by
+  simp [annotateRow, extraCols, balStage, joinStage, finish, bumpIf, bump, baseRow, idCols, startCols,
+    Val.succ]
+
+/-- **`--header`** changes no data row -/
+theorem header_effect (ops : Bal.Ops Int α) (s : Store α) (spansOf : Box → List (Nat × Nat))
+    (o : DumpOpts) (h : Bool) :
+    dumpRows ops s spansOf { o with header := h } = dumpRows ops s spansOf o := by
+  rw [dumpRows_eq, dumpRows_eq, engineOut_congr s spansOf { o with header := h } o rfl rfl rfl]
+  have : annotateRow ops s { o with header := h } = annotateRow ops s o :=
+    funext fun p => annotateRow_congr ops s _ _ p rfl rfl rfl rfl rfl
+  rw [this]
+
+/-- **`--fill-lower`** is the identity on a store in square mode -/
+theorem fill_lower_square (ops : Bal.Ops Int α) (s : Store α) (hs : s.symm = false)
+    (spansOf : Box → List (Nat × Nat)) (o : DumpOpts) (f : Bool) :
+    dumpRows ops s spansOf { o with fillLower := f } = dumpRows ops s spansOf o := by
+  have he : engineOut s spansOf { o with fillLower := f } = engineOut s spansOf o := by
+    unfold engineOut useFill bbox
+    simp [hs]
+  rw [dumpRows_eq, dumpRows_eq, he]
+  have : annotateRow ops s { o with fillLower := f } = annotateRow ops s o :=
+    funext fun p => annotateRow_congr ops s _ _ p rfl rfl rfl rfl rfl
+  rw [this]
+
+/-- **`--fill-lower`** on a symmetric-upper store: the rows are the annotated sub-block of the
+symmetric completion (instead of the stored upper-triangle records of the box) -/
+theorem fill_lower_symm (ops : Bal.Ops Int α) (s : Store α) (hv : ValidStore s) (hs : s.symm = true)
+    (spansOf : Box → List (Nat × Nat)) (hsp : ∀ c, validSpans s.offs c (spansOf c) = true)
+    (o : DumpOpts) (hb : BoxOK s.nbins (bbox s.nbins o)) :
+    (∃ out, out.Perm (specWindow true s.px (bbox s.nbins o)) ∧
+      dumpRows ops s spansOf { o with fillLower := true } = mapO (annotateRow ops s o) out) ∧
+    dumpRows ops s spansOf { o with fillLower := false } =
+      mapO (annotateRow ops s o) (s.px.filter (inBox (bbox s.nbins o))) := by
+  have hbb : ∀ f, bbox s.nbins { o with fillLower := f } = bbox s.nbins o := fun f => rfl
+  have hann : ∀ f, annotateRow ops s { o with fillLower := f } = annotateRow ops s o := by
+    intro f; funext p; exact annotateRow_congr ops s _ _ p rfl rfl rfl rfl rfl
+  constructor
+  · obtain ⟨out, _, h2, h3⟩ := dump_eq_query ops s hv spansOf hsp { o with fillLower := true }
+      (by rw [hbb]; exact hb)
+    have : useFill s { o with fillLower := true } = true := by simp [useFill, hs]
+    simp only [this, if_true, hbb] at h3
+    exact ⟨out, h3, by rw [h2, hann]⟩
+  · obtain ⟨out, _, h2, h3⟩ := dump_eq_query ops s hv spansOf hsp { o with fillLower := false }
+      (by rw [hbb]; exact hb)
+    have : useFill s { o with fillLower := false } = false := by simp [useFill]
+    simp only [this, Bool.false_eq_true, if_false, hbb] at h3
+    rw [h2, hann, h3.1]
+
+/-- **`-r`**: the rows are those of the row extent × the same extent; **`-r … -r2 …`**: row extent ×
+column extent; no `-r`: the whole matrix (`-r2` alone is ignored by the code — an observation, not
+part of the property) -/
+theorem range_effect (n : Nat) (o : DumpOpts) :
+    (∀ r, o.range = some r → o.range2 = none → bbox n o = ⟨r.1, r.2, r.1, r.2⟩) ∧
+    (∀ r c, o.range = some r → o.range2 = some c → bbox n o = ⟨r.1, r.2, c.1, c.2⟩) ∧
+    (o.range = none → bbox n o = ⟨0, n, 0, n⟩) := by
+  refine ⟨?_, ?_, ?_⟩
+  · intro r h1 h2; unfold bbox; rw [h1, h2]
+  · intro r c h1 h2; unfold bbox; rw [h1, h2]
+  · intro h1; unfold bbox; rw [h1]
+
+/-! #### `--join`, `--balanced`, `--annotate`: stated per record `p` of the library query (by
+`dump_eq_query` row `k` of either dump is the annotation of the same record `out[k]`) -/
+
+theorem suffix_ne_id (f sfx : String) (hs : sfx = "1" ∨ sfx = "2") : f ++ sfx ∉ idCols := by
+  intro h
+  simp only [idCols, List.mem_cons, List.mem_nil_iff, or_false] at h
+  rcases hs with rfl | rfl <;> rcases h with h | h <;>
+    (have h1 := congrArg String.toList h
+     simp [String.toList_append] at h1
+     have h2 := congrArg List.getLast? h1
+     simp at h2)
+
+theorem sideCols_names (s : Store α) (fs : List String) (sfx : String) (k : Nat) (r : Row α)
+    (h : sideCols s fs sfx k = some r) : rowNames r = fs.map (· ++ sfx) := by
+  unfold sideCols at h
+  induction fs generalizing r with
+  | nil => simp [mapO] at h; subst h; rfl
+  | cons f fs ih =>
+    simp only [mapO] at h
+    cases hb : binField s f k with
+    | none => simp [hb] at h
+    | some v =>
+      cases hm : mapO (fun f => (binField s f k).map fun v => (f ++ sfx, v)) fs with
+      | none => simp [hb, hm] at h
+      | some rest =>
+        simp [hb, hm] at h
+        subst h
+        simp [rowNames, List.map_cons]
+        exact ih rest hm
+
+theorem filter_noid_of_names (r : Row α) (h : ∀ c ∈ rowNames r, c ∉ idCols) :
+    r.filter (fun c => !(decide (c.1 ∈ idCols))) = r := by
+  rw [List.filter_eq_self]
+  intro c hc
+  have := h c.1 (List.mem_map_of_mem (f := (·.1)) hc)
+  simp [this]
+
+theorem bump_noid_of_names (cols : List String) (r : Row α) (h : ∀ c ∈ rowNames r, c ∉ cols) :
+    bump cols r = r := by
+  unfold bump
+  conv => rhs; rw [← List.map_id r]
+  apply List.map_congr_left
+  intro c hc
+  have := h c.1 (List.mem_map_of_mem (f := (·.1)) hc)
+  simp [this]
+
+theorem sideCols_noid (s : Store α) (fs : List String) (sfx : String) (hs : sfx = "1" ∨ sfx = "2")
+    (k : Nat) (r : Row α) (h : sideCols s fs sfx k = some r) : ∀ c ∈ rowNames r, c ∉ idCols := by
+  rw [sideCols_names s fs sfx k r h]
+  intro c hc
+  obtain ⟨f, _, rfl⟩ := List.mem_map.mp hc
+  exact suffix_ne_id f sfx hs
+
+theorem extraCols_noid (s : Store α) (o : DumpOpts) (p : Px) (e : Row α) (h : extraCols s o p = some e) :
+    ∀ c ∈ rowNames e, c ∉ idCols := by
+  unfold extraCols at h
+  cases ha : o.annotate with
+  | none => simp [ha] at h; subst h; simp [rowNames]
+  | some fs =>
+    simp only [ha] at h
+    cases h1 : sideCols s fs "1" p.i with
+    | none => simp [h1] at h
+    | some a =>
+      cases h2 : sideCols s fs "2" p.j with
+      | none => simp [h1, h2] at h
+      | some b =>
+        simp [h1, h2] at h
+        subst h
+        intro c hc
+        simp only [rowNames, List.map_append, List.mem_append] at hc
+        rcases hc with hc | hc
+        · exact sideCols_noid s fs "1" (Or.inl rfl) p.i a h1 c hc
+        · exact sideCols_noid s fs "2" (Or.inr rfl) p.j b h2 c hc
+
+/-- **`--join`**: the row with the flag is the row without it (and without the one-based shifts) with
+the two id columns replaced by `chrom/start/end` of both bins, put in front; `--one-based-starts` then
+applies to the new start columns, `--one-based-ids` has nothing left to apply to -/
+theorem join_effect (ops : Bal.Ops Int α) (s : Store α) (o : DumpOpts) (p : Px) :
+    annotateRow ops s { o with join := true } p =
+      (annotateRow ops s { o with join := false, oneBasedIds := false, oneBasedStarts := false } p).bind
+        fun r => (joinRow s p.i p.j r).map (bumpIf o.oneBasedStarts startCols) := by
+  have hE1 : extraCols s { o with join := true } p = extraCols s o p := rfl
+  have hE2 : extraCols s { o with join := false, oneBasedIds := false, oneBasedStarts := false } p
+      = extraCols s o p := rfl
+  have hB1 : balStage ops s { o with join := true } p = balStage ops s o p := rfl
+  have hB2 : balStage ops s { o with join := false, oneBasedIds := false, oneBasedStarts := false } p
+      = balStage ops s o p := rfl
+  have hJ1 : ∀ r, joinStage s { o with join := true } p r = joinRow s p.i p.j r := fun _ => rfl
+  have hJ2 : ∀ r, joinStage s { o with join := false, oneBasedIds := false, oneBasedStarts := false } p r
+      = some r := fun _ => rfl
+  have hF1 : ∀ r e : Row α, finish { o with join := true } r e
+      = bumpIf o.oneBasedStarts startCols (bumpIf o.oneBasedIds idCols (r ++ e)) := fun _ _ => rfl
+  have hF2 : ∀ r e : Row α, finish { o with join := false, oneBasedIds := false, oneBasedStarts := false } r e
+      = r ++ e := fun _ _ => rfl
+  unfold annotateRow
+  simp only [hE1, hE2, hB1, hB2, hJ1, hJ2, hF1, hF2]
+  cases he : extraCols s o p with
+  | none => rfl
+  | some e =>
+    simp only [Option.bind_some]
+    cases balStage ops s o p with
+    | none => rfl
+    | some r1 =>
+      simp only [Option.bind_some, Option.map_some]
+      unfold joinRow
+      cases h1 : sideCols s coordFields "1" p.i with
+      | none => rfl
+      | some a =>
+        cases h2 : sideCols s coordFields "2" p.j with
+        | none => rfl
+        | some b =>
+          simp only [Option.bind_some, Option.map_some, Option.map_map]
+          have hne := extraCols_noid s o p e he
+          have hfe : (r1 ++ e).filter (fun c => !(decide (c.1 ∈ idCols)))
+              = r1.filter (fun c => !(decide (c.1 ∈ idCols))) ++ e := by
+            rw [List.filter_append, filter_noid_of_names e hne]
+          rw [hfe]
+          have hnoid : ∀ c ∈ rowNames (a ++ b ++ r1.filter (fun c => !(decide (c.1 ∈ idCols))) ++ e),
+              c ∉ idCols := by
+            intro c hc
+            simp only [rowNames, List.map_append, List.mem_append] at hc
+            rcases hc with ((hc | hc) | hc) | hc
+            · exact sideCols_noid s _ "1" (Or.inl rfl) _ a h1 c hc
+            · exact sideCols_noid s _ "2" (Or.inr rfl) _ b h2 c hc
+            · obtain ⟨x, hx, rfl⟩ := List.mem_map.mp hc
+              have := (List.mem_filter.mp hx).2
+              simpa using this
+            · exact hne c hc
+          have hb : bump idCols (a ++ b ++ r1.filter (fun c => !(decide (c.1 ∈ idCols))) ++ e)
+              = a ++ b ++ r1.filter (fun c => !(decide (c.1 ∈ idCols))) ++ e :=
+            bump_noid_of_names _ _ hnoid
+          simp only [List.append_assoc] at hb ⊢
+          split <;> simp [hb]
+
+end dump
+
 end Cooler.C16
